@@ -637,6 +637,9 @@ class SimulationAlgorithm(BaseSimulationAlgorithm):
             if val <= min_spacing_between_visits:
                 rounding_precision = precision
                 break
+        if rounding_precision is None:
+            # requested spacing is finer than the finest supported precision
+            rounding_precision = max(rounding_options)
         df_sim.reset_index(inplace=True)
         df_sim.loc[:, "TIME"] = df_sim["TIME"].round(rounding_precision)
         df_sim.set_index(["ID", "TIME"], inplace=True)
